@@ -1,4 +1,5 @@
 import DarkluaModel.C08.Indep
+import DarkluaModel.C08.Exact
 /-!
 # C08 — static evaluation never disagrees with real execution: property theorems
 
@@ -182,6 +183,15 @@ theorem pure_sound_independent {E : EvalOps N} (A : Agree N E) (call call' : Cal
     evalE call ρ k env e σ = evalE call' ρ' k' env e σ :=
   indep E call ρ k call' ρ' k' env A hk hk' e σ h hp
 
+/-- Inside `H8`: a side-effect free expression that contains no table constructor and no function
+expression (`Rules.noAlloc`) leaves the state EXACTLY as it was — the form the rule lemmas of C01 need
+(dropping or duplicating the evaluation of such an expression changes nothing at all). -/
+theorem pure_sound_noalloc {E : EvalOps N} (A : Agree N E) (call : CallFn N) (ρ : ExtOracle N) (k : Nat)
+    (env : Env N) (e : Expr) (σ σ' : State N) (vs : List (Val N))
+    (h : h8 E e = true) (hp : hasSideEffects E false e = false) (hna : Rules.noAlloc e = true)
+    (hr : evalE call ρ k env e σ = .ok vs σ') : σ' = σ :=
+  exact E call ρ k env A e σ σ' vs h hp hna hr
+
 /-! ## the full statements are false: witnesses -/
 
 /-- a tiny number system (natural numbers) for kernel-evaluable witnesses -/
@@ -295,6 +305,13 @@ example :
     h8 toyE (.table [.keyed (.num 1) (.un .not (.var "x"))]) = true ∧
     hasSideEffects toyE false (.table [.keyed (.num 1) (.un .not (.var "x"))]) = false := by
   constructor <;> rfl
+
+-- … and `(1 < 2) and not x` is inside H8, side-effect free and allocates nothing
+example :
+    h8 toyE (.bin .and (.bin .lt (.num 1) (.num 2)) (.un .not (.var "x"))) = true ∧
+    hasSideEffects toyE false (.bin .and (.bin .lt (.num 1) (.num 2)) (.un .not (.var "x"))) = false ∧
+    Rules.noAlloc (.bin .and (.bin .lt (.num 1) (.num 2)) (.un .not (.var "x"))) = true := by
+  refine ⟨rfl, rfl, rfl⟩
 
 -- a statically known truthiness
 example : (evaluate toyE (.bin .or (.table []) (.call (.var "f") none .tuple []))).isTruthy = some true := rfl
